@@ -38,6 +38,21 @@ def _counter_at_limit(t):
     return out or None
 
 
+def _nonempty(prog, rep):
+    from .emptiness import unguarded_reads
+    for cls in ("AndContour", "OrContour"):
+        q = f"{CT}.{cls}._compute"
+        fn = prog.func(q)
+        b = builder(prog, fn, inline=False)
+        pcs = path_conditions(prog, fn, b)
+        bad = unguarded_reads(fn, b, pcs)
+        if not bad:
+            rep.ok("C04.total", f"{q}:element-reads", fn.where(), "no element of a possibly empty sequence is read")
+        for st, src, why in bad:
+            rep.fail("C04.total", f"{q}:{src}", fn.where(st), f"{src} is read although {why}: when every searched point is dropped (variables of very different scale, "
+                     "an all-negative variable) the constructor ends in an IndexError instead of a contour or a meaningful error")
+
+
 def run(prog, rep):
     rep.explanation = EXPL
     rep.assumptions = ASSUME
@@ -48,6 +63,10 @@ def run(prog, rep):
     rep.part(sibling, prog, rep, infos)
     rep.part(ctor_stores, prog, rep, "C04.ctor", f"{CT}.AndContour", ["model", "alpha", "deg_step", "sample", "allowed_error"])
     rep.part(ctor_stores, prog, rep, "C04.ctor", f"{CT}.OrContour", ["model", "alpha", "deg_step", "sample", "allowed_error", "lowest_theta", "highest_theta"])
+    rep.part(_nonempty, prog, rep)
+    rep.expect_min("C04.total", 2)
+    rep.explanation += (" C04.total: the closing of the contour reads no element of a point list that can be empty (all searched points dropped by the "
+                        "1.1 x max filter): a contour or a meaningful error, not an IndexError.")
     rep.expect_min("C04.ctor", 4)
     rep.expect_min("C04.n", 4)
     rep.expect_min("C04.pred", 5)
